@@ -141,7 +141,7 @@ def branch_stats(traces, dist):
 
 
 PLANS = {   # (calls, permille, clients, feeders, mix)
-    "quick": [(60, 0, 6, 2, 0), (60, 200, 6, 1, 0), (50, 400, 8, 2, 0), (80, 150, 3, 0, 0), (60, 250, 5, 1, 3), (60, 100, 2, 1, 2)],
+    "quick": [(40, 0, 6, 2, 0), (40, 200, 6, 1, 0), (30, 400, 8, 2, 0), (80, 150, 3, 0, 0), (40, 250, 5, 1, 3), (40, 100, 2, 1, 2)],
     "thorough": [(150, 0, 6, 2, 0), (150, 200, 6, 1, 0), (120, 400, 8, 2, 0), (200, 150, 3, 0, 0), (150, 250, 5, 1, 3),
                  (150, 100, 2, 1, 2), (150, 300, 10, 3, 0), (200, 50, 4, 0, 1), (150, 350, 4, 2, 3), (100, 500, 12, 2, 0)],
 }
@@ -165,6 +165,16 @@ def correspond(ctx):
             dist[k] = dist.get(k, 0) + st.get(k, 0)
         branch_stats(tr, dist)
         alltr += [(sv, t, thr, label) for (sv, t, thr) in tr]
+    # oracle-only scenario: synchronous calls through a retargeted queue never overlap items of its serial target
+    for j in range(2 if ctx.tier == "quick" else 6):
+        seed = ctx.seed * 1000 + 500 + j
+        text, rc = run_harness(exe, seed, 150, [0, 200][j % 2], 0, 0, 9)
+        f, _, st = analyse(text, "retarget/seed%d" % seed)
+        for x in f:
+            x["args"] = [seed, 150, [0, 200][j % 2], 0, 0, 9]
+        fails += f
+        nitems += st.get("items", 0)
+        dist["retarget_scenario_items"] = dist.get("retarget_scenario_items", 0) + st.get("items", 0)
     res = conc.coq_conform("c05s_conf", IMPORTS, "conform", [(sv, t) for (sv, t, _, _) in alltr], chunk=12)
     nev = 0
     for (i, idle), (sv, t, thr, label) in zip(res, alltr):
